@@ -674,7 +674,7 @@ func New() *FunctionGenerator {
 	equal := Equal(f)
 	less := Less(f)
 
-	fg.AddOpImpl("=", true, equal)
+	fg.AddOpImpl("=", false, equal)
 	fg.AddOp("!=", false, func(st funcGen.Stack[Value], a Value, b Value) (Value, error) {
 		eq, err := equal.Calc(st, a, b)
 		if err != nil {
